@@ -287,6 +287,7 @@ class Emit:
         if v.kind == 'global':
             g = M.globals.get(v.v)
             if g is not None:
+                USEDG.add(v.v)
                 if g['tls'] and s.seq: return '(&G_%s[%d])' % (mangle(v.v), s.tid)
                 if g['tls']: return '(&G_%s[CUR_TID])' % mangle(v.v)
                 return '(&G_%s)' % mangle(v.v)
@@ -621,8 +622,12 @@ def translate_function(f, tid=None, seq=False, opts=None):
                     elif tmpl.strip() == '' or 'lfence' in tmpl or 'sfence' in tmpl:
                         pass
                     elif 'rdtsc' in tmpl:
-                        out.append('  %s = (%s)VERIF_CHOICE();' % (e.reg(dst), rty.c()) if dst else '  ;')
-                    else: raise NotImplementedError('asm ' + tmpl)
+                        if dst and isinstance(rty, (LitStructT, StructT)):
+                            for fi, ft in enumerate(rty.fields): out.append('  %s.f%d = (%s)VERIF_CHOICE();' % (e.reg(dst), fi, ft.c()))
+                        else:
+                            out.append('  %s = (%s)VERIF_CHOICE();' % (e.reg(dst), rty.c()) if dst else '  ;')
+                    else:
+                        out.append('  __CPROVER_assert(0, "VERIF unmodelled inline asm reached (context switch outside the harness model)"); __CPROVER_assume(0);%s' % (' return;' if seq else ''))
                     continue
                 callee = parse_value(tk, None); tk.expect('('); args = []
                 if not tk.eat(')'):
@@ -734,6 +739,7 @@ TSO_LOCS = {}
 SPECIAL = {}
 CALLED = set()
 REFERENCED = set()
+USEDG = set()
 NOOP = set()
 TRAP = set()
 
@@ -799,8 +805,15 @@ def main():
             def scan(v):
                 if v is None: return
                 if v.kind == 'global' and v.v in M.funcs: REFERENCED.add(v.v)
+                if v.kind == 'global' and v.v in M.globals: USEDG.add(v.v)
                 for o in (v.ops or []): scan(o)
-            for g in M.globals.values(): scan(g['init'])
+            scanned = set()
+            while True:
+                todo_g = [n for n in sorted(USEDG) if n not in scanned]
+                if not todo_g: break
+                for n in todo_g:
+                    scanned.add(n); g = M.globals.get(n)
+                    if g is not None: scan(g['init'])
             extra = [c for c in sorted(CALLED | REFERENCED) if c in M.funcs and c not in done and c not in threads]
             if not extra: break
             plain_names += extra; continue
